@@ -3,6 +3,8 @@
 //      SpectraVerifAccess) against the Lean state machine Model/SVD.lean (inner solver results recorded and replayed);
 //      perform_op of both operator classes against the model's explicit loops;
 //  (b) oracle: the property's predicates on the real outputs against a long double one-sided Jacobi SVD.
+//  stream 6 (+ fixed witnesses, stream 7): runs that END partially converged: prescribed spectra with tight clusters next to well
+//      separated values, leading singular vector (nearly) orthogonal to the solver's fixed start vector, maxit 1..12, ncv barely above ncomp.
 // Eigen assertions are turned into exceptions so that an out-of-range block (stale cache) is an observable outcome, not an abort.
 #include <stdexcept>
 struct EigenAssertError : std::logic_error { using std::logic_error::logic_error; };
@@ -129,9 +131,26 @@ static std::string replay_json(const CaseId& c, const std::string& variant, long
 
 static LD maxabs(const LMat& M) { return M.size() ? M.cwiseAbs().maxCoeff() : 0; }
 
+// every value handed back as converged (also when fewer than ncomp converged) is a singular value of A: a Ritz pair (theta, x) of B = A'A
+// (or AA') accepted at tolerance tol has ||B x - theta x|| < tol*theta, so an eigenvalue sigma^2 of B lies within tol*theta of theta = s^2 and
+// |sigma - s| <= tol*s^2/(sigma + s) <= tol*s <= tol*||A||.  Graded with the constant of the positional check: (100 tol + 1e-9) ||A||, values above 1e-4 ||A||.
+static bool genuine_values(const Vec& s, const std::vector<LD>& sref, LD nA, double tol, long ret, long ncomp, Out& out, std::string& what) {
+    for (long i = 0; i < s.size(); i++) {
+        if (!((LD) s[i] > 1e-4L * nA)) continue;
+        LD dist = 1e300L; long at = -1; for (size_t j = 0; j < sref.size(); j++) { LD dd = std::fabs((LD) s[i] - sref[j]); if (dd < dist) { dist = dd; at = (long) j; } }
+        out.count("oracle_value_genuine");
+        if (!(dist <= (100.0L * tol + 1e-9L) * nA)) {
+            std::ostringstream w; w << "returned singular value " << i << " = " << s[i] << " (of " << ret << " reported converged, ncomp=" << ncomp << ") is not a singular value of A: nearest reference value " << (at >= 0 ? (double) sref[at] : 0.0) << " is " << (double) dist << " away (||A||=" << (double) nA << ", tol=" << tol << ")";
+            what = w.str(); return false;
+        }
+    }
+    return true;
+}
+
 // run one history on the real class of matrix type MT; writes one correspondence line and evaluates the oracle
 template <class MT>
-static void run_history(const CaseId& cid, const Gen& g, long ncomp, long ncv, const std::vector<OpSpec>& ops, Out& out, bool do_corr, bool values_oracle) {
+static void run_history(const CaseId& cid, const Gen& g, long ncomp, long ncv, const std::vector<OpSpec>& ops, Out& out, bool do_corr, int vals) {
+    const bool values_oracle = (vals & 1) != 0, genuine_oracle = (vals & 3) != 0;
     const Mat& A = g.A; const long m = A.rows(), n = A.cols(), d = std::min(m, n);
     const std::string variant = Conv<MT>::name();
     MT Am = Conv<MT>::make(A);
@@ -188,6 +207,8 @@ static void run_history(const CaseId& cid, const Gen& g, long ncomp, long ncv, c
                 have = true; if (filled) stale = true; last_ret = ret; last_maxit = o.maxit; last_tol = o.tol;
                 addresp("ret=" + str(ret) + " " + tail());
                 out.count(ret == ncomp ? "compute_all_converged" : (ret == 0 ? "compute_none_converged" : "compute_partly_converged"));
+                // a converged pair BEHIND an unconverged one (the flag-selected columns are not the leading ones)
+                { bool gap = false, hole = false; for (long i = 0; i < ncomp && i < (long) fl.size(); i++) { if (!fl[i]) gap = true; else if (gap) hole = true; } if (hole) out.count("compute_partly_converged_with_hole"); }
                 // counts: return value = m_nconv = eigenvalues().size() = eigenvectors().cols() <= ncomp
                 long ne = eg.eigenvalues().size();
                 if (!(ret == AX::nconv(svd) && ret == ne && ret == ev.cols() && ret <= ncomp && ret >= 0))
@@ -200,10 +221,17 @@ static void run_history(const CaseId& cid, const Gen& g, long ncomp, long ncv, c
             if (have) {
                 out.count("oracle_values");
                 if (s.size() != last_ret) out.fail("svd-counts", "singular_values() has " + str(s.size()) + " entries, compute() returned " + str(last_ret), rj(oi));
-                bool fin = true, nonneg = true, ord = true;
+                bool fin = true, nonneg = true, ord = true; std::string w_gen;
                 for (long i = 0; i < s.size(); i++) { if (!std::isfinite(s[i])) fin = false; if (!(s[i] >= 0)) nonneg = false; if (i > 0 && !(s[i] <= s[i - 1])) ord = false; }
                 if (!fin || !nonneg) { std::ostringstream w; w << "singular value not finite / not non-negative:"; Vec lam = eg.eigenvalues(); for (long i = 0; i < s.size(); i++) w << " sqrt(" << lam[i] << ")=" << s[i]; out.fail("svd-nan", w.str(), rj(oi)); }
                 else if (!ord) out.fail("svd-order", "singular values not non-increasing", rj(oi));
+                else if (genuine_oracle && !genuine_values(s, sref, nA, last_tol, last_ret, ncomp, out, w_gen)) out.fail("svd-value", w_gen, rj(oi));
+                else if (genuine_oracle && !values_oracle && last_ret == ncomp) {
+                    // informational only (streams 6/7 grade genuineness, not position): all ncomp pairs passed the solver's test, yet a larger singular value of A
+                    // is absent (second copy of a cluster / hidden leading vector not yet picked up by the single-vector Krylov space)
+                    bool missed = false; for (long i = 0; i < s.size() && i < (long) sref.size(); i++) if (sref[i] - (LD) s[i] > 1e-3L * nA) missed = true;
+                    out.count(missed ? "all_converged_genuine_but_a_larger_value_absent" : "all_converged_are_the_largest");
+                }
                 else if (values_oracle && last_ret == ncomp) {
                     // all requested values converged: the i-th value is the i-th largest singular value, to 100*tol*||A|| + 1e-9*||A||
                     // (only positions whose reference value is above 1e-4||A|| and separated from its neighbours by more than 1e-6||A||)
@@ -266,7 +294,9 @@ static void run_history(const CaseId& cid, const Gen& g, long ncomp, long ncv, c
             if (ncompute >= 2) {
                 out.count("oracle_latest");
                 MT Af = Conv<MT>::make(A); PartialSVDSolver<MT> fresh(Af, ncomp, ncv); fresh.compute(last_maxit, last_tol);
-                Mat Ff = isU ? fresh.matrix_U(o.k) : fresh.matrix_V(o.k);
+                Mat Ff;
+                try { Ff = isU ? fresh.matrix_U(o.k) : fresh.matrix_V(o.k); }
+                catch (const EigenAssertError& e) { out.fail("svd-assert", std::string("a FRESH solver given the latest compute() arguments hit an Eigen assertion in matrix_") + o.op + "(" + str(o.k) + ") (undefined behaviour under NDEBUG): nconv=" + str(AX::nconv(fresh)) + ", cached columns=" + str(AX::ecols(fresh)) + " [" + std::string(e.what()).substr(0, 80) + "]", rj(oi)); continue; }
                 bool same = Ff.rows() == F.rows() && Ff.cols() == F.cols();
                 double md = 0; if (same) for (long j = 0; j < F.cols(); j++) for (long i = 0; i < F.rows(); i++) { if (cbits(F(i, j)) != cbits(Ff(i, j))) same = false; md = std::max(md, std::fabs(F(i, j) - Ff(i, j))); }
                 if (!same) { std::ostringstream w; w << "matrix_" << o.op << "(" << o.k << ") after compute #" << ncompute << " differs from what a fresh solver returns for the same (latest) compute arguments: max |diff| = " << md << (stale ? " (eigenvector cache was filled before the latest compute)" : ""); out.fail(stale ? "svd-stale-cache" : "svd-latest", w.str(), rj(oi)); continue; }
@@ -275,7 +305,9 @@ static void run_history(const CaseId& cid, const Gen& g, long ncomp, long ncv, c
             // factor identities on the columns whose singular value exceeds 1e-4 ||A||
             Vec s = svd.singular_values(); long kk = 0; while (kk < F.cols() && kk < s.size() && std::isfinite(s[kk]) && (LD) s[kk] > 1e-4L * nA) kk++;
             if (kk == 0) continue;
-            Mat U = svd.matrix_U(kk), V = svd.matrix_V(kk);
+            Mat U, V;
+            try { U = svd.matrix_U(kk); V = svd.matrix_V(kk); }
+            catch (const EigenAssertError& e) { out.fail(stale ? "svd-stale-cache" : "svd-assert", "matrix_U(" + str(kk) + ") / matrix_V(" + str(kk) + ") hit an Eigen assertion (undefined behaviour under NDEBUG): m_nconv=" + str(AX::nconv(svd)) + ", cached columns=" + str(AX::ecols(svd)) + " [" + std::string(e.what()).substr(0, 80) + "]", rj(oi)); continue; }
             if (U.cols() != kk || V.cols() != kk) continue;
             out.count("oracle_identities");
             LMat Ul = U.cast<LD>(), Vl = V.cast<LD>(), Al = A.cast<LD>(); LMat Sl = LMat::Zero(kk, kk); for (long i = 0; i < kk; i++) Sl(i, i) = s[i];
@@ -313,7 +345,7 @@ static std::vector<OpSpec> gen_ops(Rng& r, long ncomp, bool allow_recompute) {
 }
 
 template <class F> static void with_variant(int v, F f) { }
-static void run_variant(int v, const CaseId& cid, const Gen& g, long ncomp, long ncv, const std::vector<OpSpec>& ops, Out& out, bool corr, bool vals) {
+static void run_variant(int v, const CaseId& cid, const Gen& g, long ncomp, long ncv, const std::vector<OpSpec>& ops, Out& out, bool corr, int vals) {
     switch (v) {
     case 0: run_history<Mat>(cid, g, ncomp, ncv, ops, out, corr, vals); break;
     case 1: run_history<RMat>(cid, g, ncomp, ncv, ops, out, corr, vals); break;
@@ -337,7 +369,7 @@ static void case_history(const CaseId& cid, Out& out) {
     int variant = r.range(0, 3);
     std::vector<OpSpec> ops = gen_ops(r, ncomp, true);
     out.count(std::string("shape_") + (m > n ? "tall" : (m < n ? "wide" : "square"))); out.count("kind_" + g.kind); out.count(std::string("variant_") + str(variant));
-    run_variant(variant, cid, g, ncomp, ncv, ops, out, true, !g.rankdef && kind != 1);
+    run_variant(variant, cid, g, ncomp, ncv, ops, out, true, (!g.rankdef && kind != 1) ? 1 : 0);
 }
 
 // stream 2: operator classes
@@ -377,7 +409,7 @@ static void case_rankdef(const CaseId& cid, Out& out) {
     long ncomp = r.range(std::max(1, d / 2), d - 1); long ncv = r.coin(0.5) ? d : r.range((int) ncomp + 1, d);
     std::vector<OpSpec> ops = {OpSpec{'C', 0, r.pick(std::vector<long>{1000, 1000, 50, 5}), r.pick(std::vector<double>{1e-10, 1e-10, 1e-6, 1e-14})}, OpSpec{'S', 0, 0, 0}, OpSpec{'U', ncomp, 0, 0}, OpSpec{'V', ncomp, 0, 0}};
     out.count("rankdef_cases"); out.count("kind_" + g.kind);
-    run_variant(r.range(0, 3), cid, g, ncomp, ncv, ops, out, cid.idx % 4 == 0, false);
+    run_variant(r.range(0, 3), cid, g, ncomp, ncv, ops, out, cid.idx % 4 == 0, 0);
 }
 
 // stream 4: fixed witnesses of the cache defect F4 (repaired by d08c57f: these histories must now be silent): compute; matrix_V; compute with other maxit/tol; matrix_V
@@ -391,7 +423,7 @@ static void case_f4(const CaseId& cid, Out& out) {
     if (cid.idx % 2 == 0) ops = {OpSpec{'C', 0, 1000, 1e-10}, OpSpec{'V', 3, 0, 0}, OpSpec{'U', 3, 0, 0}, OpSpec{'C', 0, 1000, 1e-2}, OpSpec{'S', 0, 0, 0}, OpSpec{'V', 3, 0, 0}, OpSpec{'U', 3, 0, 0}};
     else ops = {OpSpec{'C', 0, 1, 1e-14}, OpSpec{'U', 3, 0, 0}, OpSpec{'C', 0, 1000, 1e-10}, OpSpec{'S', 0, 0, 0}, OpSpec{'U', 3, 0, 0}, OpSpec{'V', 2, 0, 0}};
     out.count("f4_witness_cases");
-    run_variant((int) (cid.idx % 4), cid, g, ncomp, ncv, ops, out, true, false);
+    run_variant((int) (cid.idx % 4), cid, g, ncomp, ncv, ops, out, true, 0);
 }
 
 // stream 5: full-rank matrices over many scales (the operator is A'A: its norm is ||A||^2)
@@ -403,11 +435,92 @@ static void case_scaled(const CaseId& cid, Out& out) {
     long ncomp = r.range(1, std::max(1, std::min(d - 1, 5))); long ncv = r.coin(0.4) ? d : r.range((int) ncomp + 1, d);
     std::vector<OpSpec> ops = {OpSpec{'C', 0, 1000, r.pick(std::vector<double>{1e-10, 1e-8, 1e-12})}, OpSpec{'S', 0, 0, 0}, OpSpec{'U', ncomp, 0, 0}, OpSpec{'V', ncomp, 0, 0}};
     std::ostringstream k; k << "scaled_cases_" << sc; out.count(k.str());
-    run_variant(r.range(0, 3), cid, g, ncomp, ncv, ops, out, cid.idx % 4 == 0, true);
+    run_variant(r.range(0, 3), cid, g, ncomp, ncv, ops, out, cid.idx % 4 == 0, 1);
+}
+
+// stream 6: runs that END partially converged (NotConverging): prescribed singular spectra with a tight cluster (relative gap 1e-9..1e-6) next to
+// well separated values, optionally the leading singular vector (nearly) orthogonal to the start vector, small iteration budget, ncv barely above ncomp.
+// PartialSVDSolver::compute() calls m_eigs->init(): the start vector is SimpleRandom<double>(0).random_vec(dim), dim = n (tall: operator A'A) or
+// m (wide/square: operator AA'), and Arnoldi::init() begins the factorization with v1 = B r / ||B r||.  The eigenvector w_1 of B is invisible
+// to the Krylov space exactly when w_1'r = 0 (then w_1'B^j r = 0 for every j), so A = P S W' (tall) resp. W S P' (wide/square) is built with the
+// first column of the operator-side orthogonal factor W orthogonal to r up to delta in {0, 1e-8 .. 1e-3}.
+static Vec solver_start_vector(long dim) { Spectra::SimpleRandom<double> rng(0); Vec r0 = rng.random_vec(dim); return r0; }
+struct ClusterCase { Gen g; long ncomp = 1; std::string fam; double gap = 0, delta = -1, lead_on_start = 0; };
+static ClusterCase gen_cluster(Rng& r, int m, int n, int fam) {
+    ClusterCase c; const int d = std::min(m, n), big = std::max(m, n); const bool tall = m > n;
+    const double gap = std::pow(10.0, -(6.0 + 3.0 * r.unit()));                      // relative gap of the cluster: 1e-9 .. 1e-6
+    std::vector<double> head; bool hide = false;
+    switch (fam) {
+    case 0: c.fam = "top-pair"; head = {1.0, 1.0 - gap, 0.85}; c.ncomp = 3; break;                                 // two leading values resolved late, the third converges first
+    case 1: c.fam = "hidden-lead"; head = {1.0, 0.9, 0.8, 0.8 * (1.0 - gap)}; c.ncomp = 2; hide = true; break;     // sigma_1 invisible at first; the pair below keeps the iteration going
+    case 2: c.fam = "second-pair"; head = {1.0, 0.9, 0.9 * (1.0 - gap), 0.72}; c.ncomp = r.pick(std::vector<long>{3, 4}); hide = r.coin(0.3); break;
+    case 3: c.fam = "top-triple"; head = {1.0, 1.0 - gap, 1.0 - 2.5 * gap, 0.8}; c.ncomp = r.pick(std::vector<long>{3, 4}); break;
+    case 4: c.fam = "hidden-lead-pair"; head = {1.0, 0.95, 0.95 * (1.0 - gap), 0.8}; c.ncomp = r.pick(std::vector<long>{2, 3}); hide = true; break;
+    default: c.fam = "hidden-lead-plain"; head = {1.0, 0.9, 0.8}; c.ncomp = r.pick(std::vector<long>{2, 2, 3}); hide = true; break;
+    }
+    c.gap = gap;
+    std::vector<double> sv = head;
+    { const double t0 = r.pick(std::vector<double>{0.75, 0.7, 0.65}), t1 = r.pick(std::vector<double>{0.3, 0.15, 0.05}); const int nt = d - (int) head.size();
+      for (int i = 0; i < nt; i++) sv.push_back(t0 - (t0 - t1) * (double) i / (double) std::max(1, nt - 1) * (1.0 - 0.2 * r.unit() / (double) std::max(1, nt))); }
+    sv.resize(d); std::sort(sv.begin(), sv.end(), [](double x, double y) { return x > y; });
+    // operator-side orthogonal factor W (d x d): first column orthogonal to the start vector up to delta
+    Mat Mw(d, d); for (int i = 0; i < d; i++) for (int j = 0; j < d; j++) Mw(i, j) = r.sym();
+    Vec r0 = solver_start_vector(d); Vec rh = r0 / r0.norm();
+    if (hide) {
+        c.delta = r.pick(std::vector<double>{0.0, 0.0, 1e-8, 1e-7, 1e-6, 1e-5, 1e-4, 1e-3});
+        Vec x = Mw.col(0); x -= x.dot(rh) * rh; x -= x.dot(rh) * rh; x.normalize(); x += c.delta * rh; x.normalize(); Mw.col(0) = x;
+    }
+    Eigen::HouseholderQR<Mat> qw(Mw); Mat W = qw.householderQ();
+    c.lead_on_start = std::fabs(W.col(0).dot(rh));
+    Mat P = rand_orth(r, big).leftCols(d);
+    const double sc = r.pick(std::vector<double>{1.0, 1.0, 10.0, 0.1, 100.0, 1000.0});
+    Vec S(d); for (int i = 0; i < d; i++) S[i] = sc * sv[i];
+    c.g.A = tall ? Mat(P * S.asDiagonal() * W.transpose()) : Mat(W * S.asDiagonal() * P.transpose());
+    c.g.kind = "cluster-" + c.fam; c.g.rankdef = 0;
+    return c;
+}
+static void case_cluster(const CaseId& cid, Out& out) {
+    Rng r(cid.seed, 166, cid.idx); const bool th = cid.tier == "thorough";
+    const int sh = (int) (cid.idx % 3), fam = (int) ((cid.idx / 3) % 6);
+    int d = r.range(10, th ? 40 : 30), e = r.range(1, 12), m, n;
+    if (sh == 0) { m = d + e; n = d; } else if (sh == 1) { m = d; n = d + e; } else { m = n = d; }
+    ClusterCase c = gen_cluster(r, m, n, fam);
+    long ncomp = c.ncomp; long ncv = std::min<long>(d, ncomp + r.pick(std::vector<long>{1, 2, 2, 3, 3, ncomp}));
+    int variant = r.range(0, 3);
+    // history: several compute() calls with small budgets on the same object, each followed by the accessors
+    std::vector<OpSpec> ops; int nc = r.range(3, 6);
+    const std::vector<double> tols = {1e-10, 1e-10, 1e-8, 1e-8, 1e-6, 1e-12};
+    for (int q = 0; q < nc; q++) {
+        ops.push_back(OpSpec{'C', 0, (long) r.range(1, 12), r.pick(tols)});
+        ops.push_back(OpSpec{'S', 0, 0, 0});
+        const bool ufirst = r.coin(); const long k1 = r.coin(0.8) ? ncomp : (long) r.range(1, (int) ncomp + 1), k2 = r.coin(0.8) ? ncomp : (long) r.range(1, (int) ncomp + 1);
+        ops.push_back(OpSpec{ufirst ? 'U' : 'V', k1, 0, 0}); ops.push_back(OpSpec{ufirst ? 'V' : 'U', k2, 0, 0});
+    }
+    out.count("cluster_cases"); out.count("cluster_family_" + c.fam); out.count(std::string("cluster_shape_") + (m > n ? "tall" : (m < n ? "wide" : "square"))); out.count(std::string("cluster_variant_") + (variant == 0 ? "dense-col" : variant == 1 ? "dense-row" : variant == 2 ? "sparse-col" : "sparse-row"));
+    out.count("cluster_ncv_minus_ncomp_" + str(ncv - ncomp));
+    if (c.delta >= 0) { std::ostringstream k; k << "cluster_lead_orth_delta_" << c.delta; out.count(k.str()); if (c.lead_on_start <= 2.0 * c.delta + 1e-12) out.count("cluster_lead_orth_verified"); }
+    run_variant(variant, cid, c.g, ncomp, ncv, ops, out, cid.idx % 2 == 0, 2);
+}
+
+// stream 7: fixed witnesses (independent of VERIF_SEED and tier) of partial convergence with a hole / of a Ritz reordering at the last restart
+// (the repaired defect c774a83: stale convergence flags when maxit is exhausted): deterministic sin-matrices, every maxit in 1..12
+static Mat sin_matrix(int n, double a, double b) { Mat M(n, n); for (int i = 0; i < n; i++) for (int j = 0; j < n; j++) M(i, j) = std::sin(a + 3.0 * i + b * j * j + 0.37 * i * j); return M; }
+static void case_partial_witness(const CaseId& cid, Out& out) {
+    const int which = (int) (cid.idx % 2), sh = (int) ((cid.idx / 2) % 3); const int d = 30, big = 40;
+    Mat Q1 = Eigen::HouseholderQR<Mat>(sin_matrix(big, 1.0, 7.0)).householderQ(); Mat P = (sh == 2) ? Mat(Eigen::HouseholderQR<Mat>(sin_matrix(d, 1.0, 7.0)).householderQ()) : Mat(Q1.leftCols(d));
+    Mat M = sin_matrix(d, 2.0, 5.0); Vec S(d); long ncomp, ncv;
+    if (which == 0) { S[0] = 10; S[1] = 9.9999999; S[2] = 8.5; for (int i = 3; i < d; i++) S[i] = 7.5 - 0.2 * i; ncomp = 3; ncv = 6; }
+    else { Vec r0 = solver_start_vector(d); r0.normalize(); Vec x = M.col(0); x -= x.dot(r0) * r0; M.col(0) = x.normalized();
+           S[0] = 10; S[1] = 9; S[2] = 8; S[3] = 7.9999999; for (int i = 4; i < d; i++) S[i] = 7.5 - 0.2 * i; ncomp = 2; ncv = 5; }
+    Mat W = Eigen::HouseholderQR<Mat>(M).householderQ();
+    Gen g; g.kind = which == 0 ? "witness-top-pair" : "witness-hidden-lead"; g.A = (sh == 0) ? Mat(P * S.asDiagonal() * W.transpose()) : Mat(W * S.asDiagonal() * P.transpose());
+    std::vector<OpSpec> ops; for (long mi = 1; mi <= 12; mi++) { ops.push_back(OpSpec{'C', 0, mi, 1e-10}); ops.push_back(OpSpec{'S', 0, 0, 0}); ops.push_back(OpSpec{'U', ncomp, 0, 0}); ops.push_back(OpSpec{'V', ncomp, 0, 0}); }
+    out.count("partial_witness_cases");
+    run_variant((int) ((cid.idx / 6) % 4), cid, g, ncomp, ncv, ops, out, cid.idx < 2, 2);
 }
 
 static void dispatch(const CaseId& c, Out& out) {
-    switch (c.stream) { case 1: case_history(c, out); break; case 2: case_op(c, out); break; case 3: case_rankdef(c, out); break; case 4: case_f4(c, out); break; case 5: case_scaled(c, out); break; default: break; }
+    switch (c.stream) { case 1: case_history(c, out); break; case 2: case_op(c, out); break; case 3: case_rankdef(c, out); break; case 4: case_f4(c, out); break; case 5: case_scaled(c, out); break; case 6: case_cluster(c, out); break; case 7: case_partial_witness(c, out); break; default: break; }
 }
 
 static long json_num(const std::string& t, const std::string& key, long dflt) { auto p = t.find("\"" + key + "\":"); if (p == std::string::npos) return dflt; return std::atol(t.c_str() + p + key.size() + 3); }
@@ -421,7 +534,7 @@ int main(int argc, char** argv) {
         dispatch(c, out); out.finish(); return out.nfail ? 1 : 0;
     }
     const bool th = a.thorough();
-    long n4 = 8, n1 = th ? 9000 : 260, n2 = th ? 3000 : 300, n3 = th ? 12000 : 400, n5 = th ? 5000 : 200;
+    long n4 = 8, n1 = th ? 9000 : 260, n2 = th ? 3000 : 300, n3 = th ? 12000 : 400, n5 = th ? 5000 : 200, n6 = th ? 3000 : 240, n7 = 6;
     for (long i = 0; i < n4; i++) dispatch(CaseId{a.seed, 4, i, a.tier}, out);
     // fixed witnesses (independent of VERIF_SEED and tier) of F5 (NaN on rank-deficient input; repaired by a913b0d: must now be silent) and of the recorded finding F12 (small norm)
     { const long f5[] = {283, 273}; for (long i : f5) dispatch(CaseId{1, 3, i, "quick"}, out);
@@ -430,6 +543,8 @@ int main(int argc, char** argv) {
     for (long i = 0; i < n2; i++) dispatch(CaseId{a.seed, 2, i, a.tier}, out);
     for (long i = 0; i < n3; i++) dispatch(CaseId{a.seed, 3, i, a.tier}, out);
     for (long i = 0; i < n5; i++) dispatch(CaseId{a.seed, 5, i, a.tier}, out);
+    for (long i = 0; i < n7; i++) dispatch(CaseId{a.seed, 7, i, a.tier}, out);
+    for (long i = 0; i < n6; i++) dispatch(CaseId{a.seed, 6, i, a.tier}, out);
     out.finish();
     return 0;
 }
